@@ -43,4 +43,44 @@ theorem gap_is_whitespace {s : List Char} {n : Nat} (h : IsBest tokTable.pats s 
   have := this x hx
   simpa [cSpace, CClass.mem, CItem.mem, isSpaceChar] using this
 
+/-- The chosen length is the maximum over all patterns, and some pattern attains it. -/
+theorem IsBest.max {pats s n sy} (h : IsBest pats s n sy) :
+    (∃ p ∈ pats, matchLen p.re s = .ok n) ∧ ∀ q ∈ pats, ∀ m, matchLen q.re s = .ok m → m ≤ n := by
+  obtain ⟨pre, p, post, hp, hm, _, hpre, hpost⟩ := h
+  refine ⟨⟨p, by rw [hp]; simp, hm⟩, ?_⟩
+  intro q hq m hqm
+  rw [hp, List.mem_append, List.mem_cons] at hq
+  rcases hq with hq | rfl | hq
+  · exact Nat.le_of_lt (hpre q hq m hqm)
+  · rw [hm] at hqm; cases hqm; exact Nat.le_refl _
+  · exact hpost q hq m hqm
+
+/-- The pattern loop's choice is unique. -/
+theorem IsBest.unique {pats s n sy n' sy'} (h : IsBest pats s n sy) (h' : IsBest pats s n' sy') :
+    n = n' ∧ sy = sy' := by
+  obtain ⟨⟨p, hp, hm⟩, hmax⟩ := h.max
+  obtain ⟨⟨p', hp', hm'⟩, hmax'⟩ := h'.max
+  have hn : n = n' := Nat.le_antisymm (hmax' p hp n hm) (hmax p' hp' n' hm')
+  subst hn
+  obtain ⟨q, hf, hs⟩ := h.find
+  obtain ⟨q', hf', hs'⟩ := h'.find
+  rw [hf] at hf'
+  cases hf'
+  exact ⟨rfl, hs.symm.trans hs'⟩
+
+/-- Every token of a cover that starts where a maximal word run `w` starts *is* that run,
+and its symbol is the one the pattern loop computes for the run. -/
+theorem cover_word_token {ln : Nat} {line : List Char} {segs : List Seg}
+    (h : Covers tokTable.pats ln line 0 segs) {t : Token} (ht : t ∈ tokensOf segs)
+    {w rest : List Char} (hs : line.drop (t.sc - 1) = w ++ rest) (hr : WordRun w rest) :
+    t.text = w ∧ bestMatch tokTable.pats (w ++ rest) 0 none = some (w.length, some t.sym) := by
+  obtain ⟨_, _, _, _, h5, _, h7, h8⟩ := h.token_facts t ht
+  simp only [Nat.sub_zero] at h7 h8
+  rw [hs] at h7 h8
+  obtain ⟨sy, hb, hbest⟩ := word_run_best hr
+  obtain ⟨hn, hsy⟩ := h8.unique hbest
+  refine ⟨?_, by rw [hb, hsy]⟩
+  rw [h7, show t.ec - t.sc = t.text.length by omega, hn]
+  simp
+
 end Emboss.Tok
